@@ -1,10 +1,79 @@
 """Contracts for dns/name.rs: Name::parse against the RFC 1035 4.1.4 spec decoder (C06, C01),
 plain_append / write_to (C02, C04), Label helpers."""
+import os
 from typed import list_fns
 
 NAME_WF = "impl<'a> WireFormat<'a> for Name<'a> {"
 NAME_IMPL = "impl<'a> Name<'a> {"
 LABEL_IMPL = "impl<'a> Label<'a> {"
+
+def label_grammar(c, rel):
+    # ---- C17, label grammar for labels of every length: Label::new accepts exactly the labels the property describes
+    c.contract(rel, LABEL_IMPL, 'is_valid_label', """
+        ensures r == label_text_ok(data@), // @C17:label-grammar
+""")
+    c.all_loop(rel, LABEL_IMPL, 'is_valid_label', """
+                invariant
+                    1 <= vx_i,
+                    vx_all ==> forall|i: int| 1 <= i < vx_i && i < data@.len() ==> alnum(#[trigger] data@[i]) || data@[i] == 45 || data@[i] == 95,
+                    !vx_all ==> 1 <= vx_i < data@.len() && !(alnum(data@[vx_i as int]) || data@[vx_i as int] == 45 || data@[vx_i as int] == 95),
+                decreases data@.len() - vx_i + (if vx_all { 1int } else { 0int }),
+""")
+    c.contract(rel, LABEL_IMPL, 'new', """
+        ensures
+            (r is Ok) == label_text_ok(into_bytes_view(data)), // @C17:label-grammar
+            r is Ok ==> r.unwrap().lview() == into_bytes_view(data), // @C17:label-kept-as-given
+""", pre_body="\n        broadcast use crate::vx::vx_axioms;\n")
+
+def suffix_algebra(c, rel):
+    # ---- C17, suffix relation for names of every shape: is_subdomain_of is "strictly longer and ends with the other's labels"
+    c.contract(rel, NAME_IMPL, 'is_subdomain_of', """
+        ensures r == strict_suffix(self.lv(), other.lv()), // @C17:subdomain-iff-strictly-longer-and-ends-with
+""", pre_body="""
+        proof { lemma_labels_view_len(self.labels@); lemma_labels_view_len(other.labels@); }
+""")
+    c.rev_zip_all_loop(rel, NAME_IMPL, 'is_subdomain_of', 'labels', """
+                invariant
+                    self.labels@.len() > other.labels@.len(), // @C17:subdomain-iff-strictly-longer-and-ends-with
+                    self.lv().len() == self.labels@.len(), other.lv().len() == other.labels@.len(),
+                    forall|i: int| 0 <= i < self.labels@.len() ==> #[trigger] self.lv()[i] == self.labels@[i].lview(),
+                    forall|i: int| 0 <= i < other.labels@.len() ==> #[trigger] other.lv()[i] == other.labels@[i].lview(),
+                    vx_k <= other.labels@.len(),
+                    vx_all ==> forall|k: int| 0 <= k < vx_k ==> #[trigger] other.lv()[other.lv().len() - 1 - k] == self.lv()[self.lv().len() - 1 - k],
+                    !vx_all ==> vx_k < other.labels@.len() && other.lv()[other.lv().len() - 1 - vx_k] != self.lv()[self.lv().len() - 1 - vx_k],
+                decreases other.labels@.len() - vx_k + (if vx_all { 1int } else { 0int }),
+""")
+
+def suffix_removal(c, rel):
+    # ---- C17: "removing a suffix returns the remaining leading labels exactly in that case"
+    c.contract(rel, NAME_IMPL, 'without', """
+        ensures
+            (r is Some) == strict_suffix(self.lv(), domain.lv()), // @C17:without-some-iff-subdomain
+            r is Some ==> r.unwrap().lv() == self.lv().subrange(0, self.lv().len() - domain.lv().len()), // @C17:without-returns-leading-labels
+""", pre_body="""
+        proof { lemma_labels_view_len(self.labels@); lemma_labels_view_len(domain.labels@); }
+""")
+    c.ghost(rel, NAME_IMPL, 'without', "Some(Name { labels })", """
+            proof {
+                lemma_labels_view_len(labels@);
+                assert forall|i: int| 0 <= i < labels@.len() implies #[trigger] labels@[i].lview() == self.labels@[i].lview() by {
+                    let sl = self.labels@.subrange(0, self.labels@.len() - domain.labels@.len());
+                    assert(cloned::<Label>(sl[i], labels@[i]));
+                    axiom_label_clone(sl[i], labels@[i]);
+                }
+                assert(labels_view(labels@) =~= self.lv().subrange(0, self.lv().len() - domain.lv().len())); // @C17:without-returns-leading-labels
+            }
+""", where='before')
+
+def link_local(c, rel):
+    # ---- C17: "a name is link-local exactly when its last label is 'local' in any letter case"
+    c.contract(rel, NAME_IMPL, 'is_link_local', """
+        ensures r == (self.lv().len() > 0 && is_local_label(self.lv().last())), // @C17:link-local-iff-last-label-is-local
+""", pre_body="""
+        proof { lemma_labels_view_len(self.labels@); }
+        broadcast use crate::vx::vx_axioms;
+""")
+    c.iter_last(rel, NAME_IMPL, 'is_link_local', 'labels')
 
 def apply(c):
     rel = 'dns/name.rs'
@@ -14,6 +83,19 @@ impl<'a> Label<'a> {
     /// ghost: the bytes of the label
     pub closed spec fn lview(&self) -> Seq<u8> { self.data@ }
 }
+// derived PartialEq of Label compares the bytes (Cow<[u8]> equality is slice equality, whatever the Borrowed/Owned state):
+// assumption "derived impls are structural", used by the suffix algebra of C17
+impl<'a> vstd::std_specs::cmp::PartialEqSpecImpl for Label<'a> {
+    open spec fn obeys_eq_spec() -> bool { true }
+    open spec fn eq_spec(&self, other: &Label<'a>) -> bool { self.lview() == other.lview() }
+}
+// derived Clone of Label copies the bytes (assumption "derived impls are structural"; Verus generates its own opaque
+// specification for the derived impl, so the statement is given as an axiom over vstd's `cloned` relation), used by Name::without
+#[verifier::external_body]
+pub proof fn axiom_label_clone(a: Label, b: Label)
+    requires cloned::<Label>(a, b),
+    ensures a.lview() == b.lview(),
+{}
 pub closed spec fn labels_view(ls: Seq<Label>) -> Seq<Seq<u8>> { ls.map(|i: int, l: Label| l.lview()) }
 pub proof fn lemma_labels_view_len(ls: Seq<Label>)
     ensures labels_view(ls).len() == ls.len(),
@@ -32,8 +114,24 @@ impl<'a> Name<'a> {
 """)
 
     # ---- Label inherent impl
+    # ---- C17, label grammar for labels of every length: Label::new accepts exactly the labels the property describes.
+    # Optional unit: if is_valid_label no longer has the shape R17 understands, both functions go back outside Verus
+    # (as they were before this unit existed) and only C17 becomes undecided -- the other properties do not depend on them.
+    import xf as _xf
+    snap = c.rd(rel)
+    snap_log, snap_con, snap_ext = list(c.log), list(c.contracted), list(c.externalised)
+    try:
+        if os.environ.get('VX_DISABLE_OPTIONAL'):
+            raise _xf.AnchorLost('optional units disabled for this run')
+        label_grammar(c, rel)
+        grammar = ('new', 'is_valid_label')
+    except _xf.AnchorLost as e:
+        c.wr(rel, snap)
+        c.log[:] = snap_log; c.contracted[:] = snap_con; c.externalised[:] = snap_ext
+        c.log.append(('degraded', rel, 'C17: label grammar unit not applied (%s)' % e))
+        grammar = ()
     for fn in list_fns(c, rel, LABEL_IMPL):
-        if fn not in ('new_unchecked', 'len'):
+        if fn not in ('new_unchecked', 'len') + grammar:
             c.mark(rel, LABEL_IMPL, fn, '#[verifier::external]')
     c.mark(rel, LABEL_IMPL, 'new_unchecked', '#[verifier::external_body]')
     c.contract(rel, LABEL_IMPL, 'new_unchecked', "        ensures r.lview() == into_bytes_view(data),")
@@ -42,6 +140,31 @@ impl<'a> Name<'a> {
 
     # ---- Name inherent impl: iter, plain_append verified; the rest outside Verus for now
     verified = ('iter', 'plain_append', 'compress_append')
+    import xf as _xf2
+    snap = c.rd(rel)
+    snap_log, snap_con, snap_ext = list(c.log), list(c.contracted), list(c.externalised)
+    try:
+        if os.environ.get('VX_DISABLE_OPTIONAL'):
+            raise _xf2.AnchorLost('optional units disabled for this run')
+        suffix_algebra(c, rel)
+        verified = verified + ('is_subdomain_of',)
+        suffix_removal(c, rel)
+        verified = verified + ('without',)
+    except _xf2.AnchorLost as e:
+        c.wr(rel, snap)
+        c.log[:] = snap_log; c.contracted[:] = snap_con; c.externalised[:] = snap_ext
+        c.log.append(('degraded', rel, 'C17: suffix algebra unit not applied (%s)' % e))
+    snap = c.rd(rel)
+    snap_log, snap_con, snap_ext = list(c.log), list(c.contracted), list(c.externalised)
+    try:
+        if os.environ.get('VX_DISABLE_OPTIONAL'):
+            raise _xf2.AnchorLost('optional units disabled for this run')
+        link_local(c, rel)
+        verified = verified + ('is_link_local',)
+    except _xf2.AnchorLost as e:
+        c.wr(rel, snap)
+        c.log[:] = snap_log; c.contracted[:] = snap_con; c.externalised[:] = snap_ext
+        c.log.append(('degraded', rel, 'C17: link-local unit not applied (%s)' % e))
     for fn in list_fns(c, rel, NAME_IMPL):
         if fn not in verified:
             c.mark(rel, NAME_IMPL, fn, '#[verifier::external]')
